@@ -40,9 +40,43 @@ def gen_offload_script(rng):
     return '\n'.join(L) + '\n'
 
 
+def gen_longrun_script(rng):
+    """One key with 140..300 versions in one blob (more than two 4 KiB blocks of headers in the index file) beside a few
+    other keys: the all-versions queries (read_all, read_with) must answer the same while the index is in memory, after
+    the blob was closed and its index dumped, and after it was loaded back (restore)."""
+    K = 4
+    L = ['cfg K=4 dup=1 group=2 bloom=none init=eager runtime=%s' % rng.choice(['mt', 'ct']), 'open']
+    big = (7).to_bytes(K, 'big').hex()
+    others = [(i).to_bytes(K, 'big').hex() for i in (3, 9, 200)]
+    n = rng.choice([140, 200, 300])
+    ops = []
+    seed = 0
+    for _ in range(n):
+        seed += 1
+        ops.append('W %s %d %s 5 %d' % (big, rng.choice([5, 7, 9]), rng.choice(['-', '-', 'm1']), seed))
+    for k in others:
+        for _ in range(rng.choice([1, 2, 5])):
+            seed += 1
+            ops.append('W %s %d - 5 %d' % (k, rng.choice([5, 7]), seed))
+    if rng.random() < 0.5:
+        ops.append('D %s 6 - 0' % big)
+    rng.shuffle(ops)
+    L += ops
+    qs = []
+    for k in [big] + others:
+        qs += ['R %s' % k, 'RD %s' % k, 'RW %s m1' % k]
+    L += qs
+    L += ['close_active', 'quiesce']
+    L += qs
+    L += [rng.choice(['restore_active', 'nop'])]
+    L += qs
+    L.append('close')
+    return '\n'.join(L) + '\n'
+
+
 def gen(tier, rng):
     n = 220 if tier == 'quick' else 5000
-    out = [('offload%05d' % i, gen_offload_script(rng)) for i in range(n // 8)]
+    out = [('offload%05d' % i, gen_offload_script(rng)) for i in range(n // 8)] + [('longrun%05d' % i, gen_longrun_script(rng)) for i in range(max(3, n // 40))]
     for i in range(n):
         # small filter groups and 3-5 keys spread over the key space: closing blobs merges ranges that grow on both sides
         g = Gen(rng, queries=('R', 'C', 'RD', 'RW'), maint=0.45, restart=0.05, bg=0.03, deletes=0.15,
